@@ -85,4 +85,10 @@ func init() {
 		Assumptions: []string{"go/types model of the working tree", "fmt prints maps with sorted keys"},
 		ThoroughConfigs: []string{"elpscheck"},
 	})
+	registerProp(PropSpec{ID: "C13",
+		Rules: []string{"JSON.single-acceptance", "JSON.trailing-data", "JSON.syntax-mapped", "JSON.opts-forwarded", "JSON.encoder-table", "MAP.entries-sorted", "SORT.total-order", "REC.guarded", "DET.map-range"},
+		Explanation: "encoder/decoder sibling agreement",
+		Assumptions: []string{"go/types model of the working tree", "encoding/json semantics"},
+		ThoroughConfigs: []string{"elpscheck"},
+	})
 }
